@@ -17,6 +17,10 @@ def fs():
     return _CUR[0]
 
 
+class Link(str):
+    """a symbolic link node: the string is the (absolute) target path"""
+
+
 class MemFS:
     def __init__(self, nodes, symlinks=None):
         self.nodes = dict(nodes)          # absolute posix path -> DIR | bytes
@@ -58,7 +62,8 @@ class MemFS:
 
     def tree(self, root):
         root = str(root)
-        return {k[len(root):]: (v if v == DIR else bytes(v)) for k, v in self.nodes.items() if k == root or k.startswith(root + "/")}
+        return {k[len(root):]: (v if (v == DIR or isinstance(v, Link)) else bytes(v)) for k, v in self.nodes.items()
+                if k == root or k.startswith(root + "/")}
 
     # ---- mutation (logged, counted, fault-injectable) ------------------------------------------------
     def _effect(self, op, dst):
@@ -140,6 +145,12 @@ class MemFS:
     def touch(self, p):
         self._op("touch", p)
         p = self._abs(p)
+        hops = 0
+        while isinstance(self.nodes.get(p), Link) and hops < 8:   # utime / open follow symbolic links
+            p = self._abs(str(self.nodes[p]))
+            hops += 1
+        if p not in self.nodes and self.nodes.get(posixpath.dirname(p)) != DIR:
+            raise FileNotFoundError(2, "No such file or directory", p)
         self._effect("touch", p)
         if p not in self.nodes:
             self.nodes[p] = b""
@@ -160,7 +171,7 @@ class MemFS:
         self.nodes[dst] = self.nodes[src]
         return dst
 
-    def copytree(self, src, dst, dirs_exist_ok=False):
+    def copytree(self, src, dst, dirs_exist_ok=False, symlinks=False):
         src, dst = self._abs(src), self._abs(dst)
         self._op("copytree", dst)
         if src not in self.nodes:
@@ -171,8 +182,20 @@ class MemFS:
             raise FileExistsError(17, "File exists", dst)
         self._effect("copytree", dst)
         self._mk(dst)
+        dangling = []
         for k in self.children(src):
-            self.nodes[dst + k[len(src):]] = self.nodes[k]
+            v = self.nodes[k]
+            if isinstance(v, Link) and not symlinks:
+                # the link's target is copied; a dangling link is reported after everything else has been copied
+                t = self._abs(str(v))
+                if t not in self.nodes or self.nodes[t] == DIR or isinstance(self.nodes[t], Link):
+                    dangling.append(k)
+                    continue
+                v = self.nodes[t]
+            self.nodes[dst + k[len(src):]] = v
+        if dangling:
+            import shutil as _sh
+            raise _sh.Error([(d, dst + d[len(src):], "No such file or directory") for d in dangling])
         return dst
 
     def rename(self, a, b):
@@ -273,8 +296,8 @@ class ShutilProxy:
     copy2 = copy
 
     @staticmethod
-    def copytree(src, dst, copy_function=None, dirs_exist_ok=False, **kw):
-        return fs().copytree(src, dst, dirs_exist_ok=dirs_exist_ok)
+    def copytree(src, dst, copy_function=None, dirs_exist_ok=False, symlinks=False, **kw):
+        return fs().copytree(src, dst, dirs_exist_ok=dirs_exist_ok, symlinks=symlinks)
 
 
 class PathlibProxy:
